@@ -33,13 +33,14 @@ def plan(tier):
     bgs = (0,) if tier == "quick" else (0, 1)
     shards = [("direct", v, acc, tier, bg) for v in VERS for acc in ACCESSORS for bg in bgs] + \
              [("instr", v, s, tier, 0) for v in (6, 7) for s in ("arm", "thumb")] + \
+             [("instr", 7, "arm-lpae", tier, 0)] + \
              [("fetch", v, None, tier, 0) for v in (6, 7)]
     return {
         "shards": shards,
         "rule": "every (accessor, get/set, size, base+offset 0..7, CPSR.E, SCTLR.A, SCTLR.U, arch version, mode, data) "
                 "tuple executed on the real ArmV6 and compared with ref.memmodel: value, exact byte footprint over all "
                 "devices, fault vs align-down vs byte-wise; every store followed by the same-size load; the same through "
-                "LDR/STR/LDRB/STRB/LDRH/STRH/LDRSH/LDRSB/LDRD/STRD (ARM) and LDR/STR/LDRH/STRH/LDRB/STRB (Thumb); "
+                "LDR/STR/LDRB/STRB/LDRH/STRH/LDRSH/LDRSB/LDRD/STRD incl. register-offset LDRD/STRD (ARM; also with LPAE) and LDR/STR/LDRH/STRH/LDRB/STRB (Thumb); "
                 "instruction fetch with E=0/1",
         "bounds": {"bases": [hex(b) for b in BASES], "offsets": "0..7", "sizes": [1, 2, 4, 8], "versions": VERS,
                    "modes": ["usr", "svc"], "data": {k: [hex(x) for x in v] for k, v in DATA.items()},
@@ -52,8 +53,8 @@ def plan(tier):
     }
 
 
-def setup(ver):
-    cpu = machine.new_cpu(memory_list=MEM, arch_version=ver)
+def setup(ver, lpae=False):
+    cpu = machine.new_cpu(memory_list=MEM, arch_version=ver, **({"have_lpae": True} if lpae else {}))
     cpu.take_reset()
     cpu.registers.sctlr.m = 0
     plan = machine.Plan(cpu)
@@ -67,7 +68,7 @@ def model_mem(snapmem):
 def run_shard(arg):
     kind, ver, sub, tier, bg = arg
     res = Result()
-    cpu, plan = setup(ver)
+    cpu, plan = setup(ver, lpae=(sub == "arm-lpae"))
     regs = cpu.registers
     if bg:
         for mc in cpu.mem.memories:
@@ -166,6 +167,8 @@ def arm_ls(name, rt, rn, imm):
     if name in ("LDR", "STR", "LDRB", "STRB"):
         op = {"LDR": 0xE5900000, "STR": 0xE5800000, "LDRB": 0xE5D00000, "STRB": 0xE5C00000}[name]
         return op | rn << 16 | rt << 12 | imm
+    if name in ("LDRDr", "STRDr"):                      # register-offset forms, Rm = r4 (holds 0)
+        return {"LDRDr": 0xE18000D0, "STRDr": 0xE18000F0}[name] | rn << 16 | rt << 12 | 4
     op = {"LDRH": 0xE1D000B0, "STRH": 0xE1C000B0, "LDRD": 0xE1C000D0, "STRD": 0xE1C000F0, "LDRSH": 0xE1D000F0,
           "LDRSB": 0xE1D000D0}[name]
     return op | rn << 16 | rt << 12 | (imm >> 4) << 8 | (imm & 0xF)
@@ -176,13 +179,14 @@ def thumb_ls(name, rt, rn, imm5):
     return op | imm5 << 6 | rn << 3 | rt
 
 
-SIZE = {"LDR": 4, "STR": 4, "LDRB": 1, "STRB": 1, "LDRH": 2, "STRH": 2, "LDRSH": 2, "LDRSB": 1, "LDRD": 8, "STRD": 8}
+SIZE = {"LDR": 4, "STR": 4, "LDRB": 1, "STRB": 1, "LDRH": 2, "STRH": 2, "LDRSH": 2, "LDRSB": 1, "LDRD": 8, "STRD": 8,
+        "LDRDr": 8, "STRDr": 8}
 CODE = 0x2000
 
 
 def instr(res, cpu, plan, base, ver, thumb):
     regs = cpu.registers
-    names = ["LDR", "STR", "LDRH", "STRH", "LDRB", "STRB"] + ([] if thumb else ["LDRD", "STRD", "LDRSH", "LDRSB"])
+    names = ["LDR", "STR", "LDRH", "STRH", "LDRB", "STRB"] + ([] if thumb else ["LDRD", "STRD", "LDRDr", "STRDr", "LDRSH", "LDRSB"])
     for name, b, off, E, A, U, mode in itertools.product(names, BASES[:3], range(8), (0, 1), (0, 1), (0, 1),
                                                           ("usr", "svc")):
         size = SIZE[name]
@@ -201,6 +205,8 @@ def instr(res, cpu, plan, base, ver, thumb):
         regs.set(rn, addr)
         regs.set(rt, 0x80FF7F01)
         regs.set(rt + 1, 0xA1B2C3D4)
+        if name.endswith("r"):
+            regs.set(4, 0)
         regs.set(14, 0x55555555)
         plan.reset_scratch()
         pre = plan.snapshot()
@@ -222,8 +228,9 @@ def instr(res, cpu, plan, base, ver, thumb):
         exp_regs = {}
         unknown = set()
         fault = False
-        if name in ("LDRD", "STRD"):
-            # MemA on each word
+        if name in ("LDRD", "STRD", "LDRDr", "STRDr"):
+            # MemA on each word (with the Large Physical Address Extension a doubleword-aligned access is one 64-bit
+            # MemA instead: same bytes, same alignment condition)
             if load:
                 v1 = memmodel.mem_a_get(mm, addr, 4, E, A, U, ver)
                 v2 = memmodel.mem_a_get(mm, (addr + 4) & 0xFFFFFFFF, 4, E, A, U, ver)
